@@ -1,14 +1,21 @@
 """C18 - copy() yields an equal, fully independent, parentless object.
 
 1. TLC model-checks spec/MC_Heap (abstract heap: objects own cells; copy / in-place mutation / assignment / lazy style /
-   tree edits over the tree C1[S1, C2[X1]] with spare ids for copies and copies of copies): NoAliasInv, ForestHeapInv and the
+   tree edits over the tree C1[S1, C2[X1]] with spare ids for copies and copies of copies; the keyword values of copy() live
+   in cells of a caller-owned ARGUMENT node that the caller keeps, reuses and may change): NoAliasInv, ForestHeapInv and the
    step property C18Step = all requirement clauses of the property on observations (NoSharing, CopyParentless,
-   CopySubtreeForest, OriginalUntouched, EqualProjection, OverridesOnlyCopy, label iteration, Independence).
-   The same model with a counter-design constant (a slot copied by reference, parent kept) must be REFUTED by TLC - this
-   guards against a specification that cannot see the defect.
-2. Binding A: every object class and tree shape x parent x lazy-style state x copy keyword on real objects; observations
-   (public projection, alias graph over all reachable buffers/containers, tree links, fields) before/after copy() and after
-   every mutation of a vocabulary applied alternately to both sides; TV_Heap.tla judges each step with the same clauses.
+   CopySubtreeForest, OriginalUntouched, ArgumentsUntouched / ArgumentsNotAliased, EqualProjection, OverridesOnlyCopy, label
+   iteration, Independence).
+   The same model with a counter-design constant (a slot copied by reference, parent kept, the copy referring to the caller's
+   argument cell, an extra style keyword merged into the caller's style template) must be REFUTED by TLC - this guards against
+   a specification that cannot see the defect.
+2. Binding A: every object class (also with geometry/excitation not set) and tree shape x parent x lazy-style state x copy
+   keyword form (every attribute with a value and, where None is documented, with None; style as label / underscore / nested
+   dictionary / dictionary together with underscore keywords of the same branch; values in caller-owned arrays, lists, dicts) on
+   real objects; observations (public projection incl. every style leaf of original and copy, alias graph over all reachable
+   buffers/containers incl. the caller's argument containers, tree links, fields) before/after copy(), after a SECOND copy()
+   made with the same argument containers, and after every mutation of a vocabulary applied alternately to both sides and to
+   the caller's containers; TV_Heap.tla judges each step with the same clauses.
 """
 import glob
 import json
@@ -23,6 +30,8 @@ from ..drivers import heap as drv
 from ..report import Report
 
 COUNTER_DESIGNS = [
+    ("alias_args_style", {"AliasArgs": '{"_style"}'}),
+    ("merge_into_template", {"MergeInPlace": "TRUE"}),
     ("shallow_position", {"ShallowSlots": '{"_position"}'}),
     ("shallow_style", {"ShallowSlots": '{"_style"}'}),
     ("shallow_children", {"ShallowSlots": '{"_children"}'}),
@@ -96,6 +105,8 @@ def find_events(files, tids):
             e = json.loads(line)
             if e["tid"] in tids:
                 out[e["tid"]] = {"sc": e["sc"], "tid": e["tid"], "phase": "copy", "outcome": e["outcome"]}
+            if e.get("has2") and e["copy2"]["tid"] in tids:
+                out[e["copy2"]["tid"]] = {"sc": e["sc"], "tid": e["copy2"]["tid"], "phase": "copy2", "outcome": e["copy2"]["outcome"]}
             for s in e["steps"]:
                 if s["tid"] in tids:
                     out[s["tid"]] = {"sc": e["sc"], "tid": s["tid"], "phase": "step", "op": s["op"], "target": s["target"],
@@ -154,8 +165,8 @@ def run():
         _, tid, clause, prop, ctx = r[:5]
         det = details.get(tid, {})
         sc = det.get("sc", {})
-        if ctx[0] == "copy":
-            where = {"phase": "copy", "subject": ctx[1], "kw": ctx[2], "mode": ctx[3], "parent": sc.get("parent"), "label": sc.get("label"),
+        if ctx[0] in ("copy", "copy2"):
+            where = {"phase": ctx[0], "subject": ctx[1], "kw": ctx[2], "mode": ctx[3], "parent": sc.get("parent"), "label": sc.get("label"),
                      "outcome": "ok" if det.get("outcome") == "ok" else "raise"}
             what = f"{ctx[1]}.copy({ctx[2]}) style={ctx[3]} parent={sc.get('parent')} label={sc.get('label')!r} -> {det.get('outcome')}: {clause}"
         else:
@@ -171,6 +182,8 @@ def run():
     rep.assume("TLC, SANY and the JSON module are trusted; the alias graph is read by walking __dict__ (numpy buffers compared with np.shares_memory, "
                "containers, Rotation and style objects by identity) - state kept outside instance dictionaries (class attributes, module globals) is not seen")
     rep.assume("public projection = every public property of the class + effective style + digest of private leaves; values are compared as digests (sha1)")
+    rep.assume("the caller's keyword values are a node of the observed heap (ARGS): copy() must leave it unchanged (C18: overrides belong to the copy only); "
+               "aliasing between a copy and the caller's containers is reported as non-conformance only (the property speaks of the original)")
     rep.assume("MC universe: base tree C1[S1,C2[X1]] + spare ids; cell contents abstract and hidden from the state fingerprint (data independence); "
                "quick tier is depth-bounded, thorough reaches the fixpoint for 2 spare ids")
     return rep.finish()
@@ -202,7 +215,15 @@ def replay(path):
     ev, k = drv.run_scenario(sc, 0, tier())
     print("copy outcome", ev["outcome"], "ren", ev["ren"], "kwargs_intact", ev["kwargs_intact"])
     pre, post = ev["pre"], ev["post"]
-    if case.get("phase") == "copy":
+    if case.get("phase") == "copy2" and ev.get("has2"):
+        pre, post = ev["copy2"]["pre"], ev["copy2"]["post"]
+        print("second copy() with the same argument containers:", ev["copy2"]["outcome"], ev["copy2"]["ren"])
+        lv = ev["copy2"]["leaves"]
+        print("  style leaves of the second copy differing from the original:", {k: (lv["pre"].get(k), v) for k, v in lv["post"].items() if lv["pre"].get(k) != v})
+        ev = dict(ev, ren=ev["copy2"]["ren"])
+    if "ARGS" in pre["pub"] and pre["pub"]["ARGS"] != post["pub"].get("ARGS"):
+        print("  the caller's keyword containers were changed by copy():", {k: (v, post["pub"]["ARGS"].get(k)) for k, v in pre["pub"]["ARGS"].items() if post["pub"]["ARGS"].get(k) != v})
+    if case.get("phase") in ("copy", "copy2"):
         for o, c in ev["ren"].items():
             diff = {a: (pre["pub"][o].get(a), post["pub"][c].get(a)) for a in pre["pub"][o] if pre["pub"][o].get(a) != post["pub"][c].get(a)}
             print(f"  {o} -> {c}: differing public digests {diff}; label {pre['lab'][o]['text']!r} -> {post['lab'][c]['text']!r}; parent of copy {post['parent'][c]}")
